@@ -440,12 +440,13 @@ async def _replay_async(edge_ids):
     steps = 0
     try:
         for item in edge_ids:
-            # an item is an edge, or (loop edge, following edge): an action that leaves the abstract state unchanged
-            # (stray datagram, idle clock step) is never on a BFS-tree path, so it is replayed in front of every edge
+            # an item is an edge e, or (f, e) with f a NON-tree edge into src(e): another history that merges into the
+            # same abstract state (a stray datagram / idle clock step is the special case of a self-loop).  The BFS tree
+            # reaches src(e) along one history only; (f, e) is replayed as path_to(src f) + f + e.
             loop, ei = item if isinstance(item, tuple) else (None, item)
             e = g.edges[ei]
             drv = Driver(client, _B1_WINDOW)
-            path = g.path_to(e["_s"]) + ([g.edges[loop]] if loop is not None else [])
+            path = (g.path_to(g.edges[loop]["_s"]) + [g.edges[loop]]) if loop is not None else g.path_to(e["_s"])
             mids = []
             evs = []
             for pe in path:
@@ -538,20 +539,17 @@ def _b1(chk: Check, consts, label, sample_every, max_pairs=0):
     ids = g.reachable_edges()
     if len(ids) != len(g.edges):
         raise MachineryError("unreachable edges in the export")
-    pairs = g.selfloop_pairs()
-    if max_pairs and len(pairs) > max_pairs:
-        # quick tier: a deterministic spread over all (loop, following) pairs
-        step = len(pairs) / float(max_pairs)
-        pairs = [pairs[int(k * step)] for k in range(max_pairs)]
-    chk.cov["b1_selfloop_pairs_replayed"] = chk.cov.get("b1_selfloop_pairs_replayed", 0) + len(pairs)
+    all_pairs = len(g.merge_pairs(10 ** 9))
+    pairs = g.merge_pairs(max_pairs or (6000 if chk.tier == "quick" else 80000))
+    chk.cov["b1_merge_pairs_replayed"] = chk.cov.get("b1_merge_pairs_replayed", 0) + len(pairs)
     ids = ids + pairs
     # interleave so that chunks have similar cost
     chunks = [ids[i::common.NCPU * 4] for i in range(common.NCPU * 4)]
     import time
     t0 = time.time()
     results = common.parallel_map(_replay_chunk, [c for c in chunks if c])
-    chk.notes.append("B1 %s: %d edges + %d (self-loop, next) pairs of %d replayed in %.1fs" % (
-        label, len(ids) - len(pairs), len(pairs), len(g.selfloop_pairs()), time.time() - t0))
+    chk.notes.append("B1 %s: %d edges + %d (merging edge, next edge) pairs of %d replayed in %.1fs" % (
+        label, len(ids) - len(pairs), len(pairs), all_pairs, time.time() - t0))
     steps = sum(r[0] for r in results)
     chk.count(steps)
     chk.cov["traces_validated_against_impl"] += len(ids)
@@ -741,9 +739,9 @@ def run(chk: Check):
                        "pending/completed/foreign/not-yet-issued IDs, stray datagrams, reliable and unreliable sends, "
                        "clock steps; plus a configuration where permanent / one_shot / returns-True / wait_for() subscribers are "
                        "registered at session and region level in every order) replayed into a fresh real endpoint with the "
-                       "full observation compared (calls of every subscriber ever registered); every action that leaves the abstract "
-                       "state unchanged (stray datagram, idle clock step) is additionally replayed in front of every edge of its "
-                       "state (quick: an even spread of those pairs for the two larger configurations); "
+                       "full observation compared (calls of every subscriber ever registered); every edge is additionally replayed "
+                       "behind other histories that merge into its source state (non-tree incoming edges, incl. actions that "
+                       "leave the abstract state unchanged: stray datagram, idle clock step), thinned evenly to a cap; "
                        "non-trivial = edges with a suppressed duplicate, a completion, a retransmission or a failure. "
                        "B2: recorded histories re-validated by TLC; non-trivial = walks with a retransmission and a "
                        "suppressed duplicate.")
@@ -771,14 +769,14 @@ def run(chk: Check):
     traces = []
     # receive-heavy, depth bounded
     traces += _b1(chk, dict(base, RelPids="{1,2}", UnrelPids="{3}", MaxRcv=2, MaxSends=2, MaxUnrel=1,
-                            Depth=5 if quick else 6), "recv", 97 if quick else 97, max_pairs=6000 if quick else 0)
+                            Depth=5 if quick else 6), "recv", 97 if quick else 97, max_pairs=20000 if quick else 200000)
     # timer-heavy, unbounded depth: budget exhaustion, retransmission counts
     traces += _b1(chk, dict(base, RelPids="{}", UnrelPids="{1}", MaxRcv=1, MaxSends=2, MaxUnrel=0, MaxAcks=1, Depth=0),
-                  "timer", 17 if quick else 7)
+                  "timer", 17 if quick else 7, max_pairs=15000 if quick else 0)
     # subscribers that remove themselves during dispatch, registered before / after permanent ones, both levels
     traces += _b1(chk, dict(base, RelPids="{1}", UnrelPids="{2}", MaxRcv=2, MaxSends=0, MaxUnrel=0, MaxAcks=0, Ticks="{}",
                             MaxSubs=2, SubKinds='{"perm", "once", "retTrue", "waitfor"}', Depth=5 if quick else 6),
-                  "subscribers", 151 if quick else 211, max_pairs=5000 if quick else 0)
+                  "subscribers", 151 if quick else 211, max_pairs=12000 if quick else 0)
     # de-duplication memory of 2 (3) IDs: eviction, duplicates of remembered and of forgotten IDs
     b1_traces = traces
     wtraces = _b1(chk, dict(base, Window=2, RelPids="{1,2,3}", UnrelPids="{4}", MaxRcv=3, MaxSends=0, MaxUnrel=0, MaxAcks=0,
